@@ -298,6 +298,16 @@ func (s *storage) readAllMetaBlobs() error {
 					metac <- encMB{sb.Ref, nil, fmt.Errorf("read failed: %w", err)}
 					return
 				}
+				// As in Fetch: make sure the meta blob was not swapped
+				// for another one, which would decrypt fine but
+				// describe other blobs.
+				if h := sb.Ref.Hash(); h != nil {
+					h.Write(all)
+					if !sb.Ref.HashMatches(h) {
+						metac <- encMB{sb.Ref, nil, blobserver.ErrCorruptBlob}
+						return
+					}
+				}
 				metac <- encMB{sb.Ref, all, nil}
 			}()
 			return nil
